@@ -55,6 +55,16 @@ CHECKS = {
         "and TLC requires zero failures inside the spec's safe set. Spec-only: TLC enumerates all survivor sets of the spec's own matrices for m <= 9 (11 thorough).",
    note="Trusted: TLC's evaluation of GF256!Invert; harness h_c09.c; for the sweep the expected value is the original data (property is its own oracle).",
    technique="trace validation of recorded generator/inversion/erasure-sweep results against the TLA+ spec; spec-level survivor-set enumeration by TLC"),
+ "C10": dict(cat="model_checking", ref="DESIGN.md §3 C10",
+   text="One-shot compression is driven for every avail_out in 0..Bound+16 (small inputs; a window around Bound for 64 KiB-class inputs) x levels x wrappers with the output buffer flush against an inaccessible page; invalid level/flush/level_buf values; "
+        "streaming with end_of_stream and 1..17-byte output chunks. TLC validates every recorded call against the contract in TraceDeflate.tla: no write beyond avail_out, counters = pointer advances, Bound(n,w) defined in the spec => COMP_OK and total_out <= Bound, "
+        "success only with a complete stream that the TLA+ decoder expands to the input, STATELESS_OVERFLOW otherwise, parameter errors with no effect, END within the call cap.",
+   note="Trusted: TLC/spec; harness; documented exception that stateless level 1 may run without a level buffer.",
+   technique="trace validation of avail_out sweeps and termination schedules against the TLA+ output-space contract"),
+ "C14": dict(cat="model_checking", ref="DESIGN.md §3 C14",
+   text="Flush requests at every input position, several per stream, first-call avail_out swept so that header/body/marker stay pending when new input arrives, 1-5 byte output chunks splitting the marker. At every completed flush point (call returned with flush set, avail_in=0, avail_out>0) "
+        "TLC decodes the output so far incrementally with the TLA+ decoder: byte aligned, ends with an empty stored block, decodes to everything fed; after a completed FULL flush no later block references earlier data and the suffix decodes alone; appended one-shot raw FULL_FLUSH outputs form one valid stream.",
+   note="Trusted: TLC/spec; harness.", technique="trace validation of flush histories; flush points judged by the executable TLA+ decoder"),
  "C12": dict(cat="exploration", ref="DESIGN.md §3 C12",
    text="Exhaustive over the implementation's whole input space: all 65,536 gf_mul operand pairs, all 256 gf_inv operands and every byte of "
         "the table expansions of all 256 constants (gf_vect_mul_init, ec_init_tables_base, dispatched ec_init_tables, ec_init_tables_gfni) are "
